@@ -171,6 +171,12 @@ REGRESSION = [
     dict(prob=dict(kind="rosen", n=3, m=1, pseed=845931981), x0=[0.5801240049765265, 2.4290886328325557e-14, 5e-324],
          lower=[0.01, -0.0, -0.0], upper=[0.66, 3.0, None], args=dict(rhobeg=0.1, rhoend=0.001, maxfun=30),
          user_params={"growing.ndirs_initial": 1}, _salt=5),
+    # 90bcc32: growing initial set with more than n directions (npt = 2n, n directions to start with): the new direction, made
+    # orthogonal to a spanning set, was rounding noise or zero -> objfun called at a NaN point (or ZeroDivisionError)
+    dict(prob=dict(kind="exp", n=4, m=3, pseed=237453089), x0=[-0.23161313820742543, -0.2155075174756916, -2.5890377988221207, -3.48262552405398],
+         lower=None, upper=None, args=dict(maxfun=60, rhoend=1e-06, npt=8),
+         user_params={"restarts.use_restarts": True, "restarts.use_soft_restarts": False, "restarts.rhoend_scale": 0.5,
+                      "growing.ndirs_initial": 4, "growing.do_geom_steps": True}),
 ]
 
 
